@@ -129,10 +129,17 @@ Definition tag (w : world) (c : sysc) : sysc * option Z := (c, owner w (sysc_pid
 Definition ghost_of (w : world) (y : pobj) : Z :=
   match owner w (opid y) with Some i => i | None => -1 - opid y end.
 
+(* ghosts of the objects a call appends: a copy is bound to what its original is bound to *)
+Definition new_ghosts (w : world) (c : call) (news : list pobj) : list Z :=
+  match c with
+  | Copy o _ _ => map (fun _ => nth o (ginc w) (-1)) news
+  | _ => map (ghost_of w) news
+  end.
+
 Definition cstep (w : world) (c : call) : world * outcome res * list (sysc * option Z) :=
   let '(m1, r, scs) := mcall (view_of w) (ms w) c in
   ({| table := table w; hist := hist w; nextinc := nextinc w; btime := btime w; ms := m1;
-      ginc := ginc w ++ map (ghost_of w) (skipn (length (objs (ms w))) (objs m1)); denied := denied w |},
+      ginc := ginc w ++ new_ghosts w c (skipn (length (objs (ms w))) (objs m1)); denied := denied w |},
    r, map (tag w) scs).
 
 Definition step (w : world) (e : ev) : world * outcome res * list (sysc * option Z) :=
@@ -235,7 +242,7 @@ Definition spec_call (w : world) (c : call) : option (list (outcome res * list (
          else match owner w (g_pid w o) with None => Some [ (Val (RBool true), []) ] | Some _ => None end
     else None
   | Ppid _ | CreateTime _ | BootTime | ProcIter | NewPopen _ | OneshotEnter _ | OneshotExit _ | AsDict _
-  | SetProbe _ | SetAct _ _ | Wait _ _ | IterStart | IterNext _ => None
+  | SetProbe _ | SetAct _ _ | Wait _ _ | IterStart | IterNext _ | Copy _ _ _ | PickleDump _ _ => None
   end.
 
 (* histories in which no process_iter() generator is resumed while other calls go on
